@@ -195,6 +195,18 @@ CHECKS = {
        "parser's table.",
   note="trusted: istream_get_line strips the line terminator; names with newline are excluded by the property",
   technique="static analysis: character-class extraction and set inclusion (agreement of sibling lexers), dominance of raw emissions by the quoting predicate, on LLVM IR"),
+ "C17": dict(
+  text="The layout of produced images is value-level and NOT decided. Decided on LLVM IR is the transport of every directive "
+       "to the code that acts on it: K1-action (each user-settable block flag is tested where it must act -- compressor "
+       "call, sparse marking, tail fragment, fragment and block deduplication; the bit is derived from the guard); "
+       "K13-keyword (each sort file keyword ORs exactly the bit whose point of action matches its name); K13-transport "
+       "(decoder -> node -> create_ostream -> begin_file -> blk_flags -> block -> block writer: each link derives from the "
+       "previous carrier and no AND-mask clears a user bit); K13-first (first matching line wins); K13-notail (strictly "
+       "greater than one block, gensquashfs and tar2sqfs); K11-order (post-process, sort, pack; packing walks the sorted "
+       "list); K14-sort (priorities compared at full width, strictly; comparator-shaped helpers evaluated exhaustively); "
+       "K13-export (entry count only grows, slot from inode number, written when requested).",
+  note="trusted: SQFS_BLK_* enumerators are evaluated from the public header through the same compiler pipeline",
+  technique="static analysis: guard/mask extraction, def-use transport chains with mask tracking, dominance order, exhaustive comparator evaluation on LLVM IR"),
 }
 
 NA_DEFAULT = "rules designed in DESIGN.md, not implemented yet (work in progress)"
